@@ -94,6 +94,8 @@ def run_batch_ext(ctx, cases, want_may=True, tag='cvx'):
             got_ = set(O.U(p) for p in o)
             ev.must |= got_
             ev.raw.setdefault('_must_by_tx', {}).setdefault(tx_id, set()).update(got_)
+            if q[0] == 'cv_must':
+                ev.raw.setdefault('_must_lin_by_tx', {}).setdefault(tx_id, set()).update(got_)
         else:
             cur = real[id(ev)]
             flags = [bool(b) for b in o]
